@@ -25,7 +25,7 @@
 (*         (1e-5 full scale^2), pk peeked decoder control state after the call  *)
 (***************************************************************************)
 EXTENDS Link, Json, IOUtils, TLC
-CONSTANTS M1, M2, M2After, M2Late, M2LateAfter, M3Num, M3Den, M4, M5, M5After, M6, M6After,      \* calibrated thresholds (centi-dB; M3 as a ratio of energies), R3
+CONSTANTS M1, M2, M2After, M2Late, M2LateAfter, M3Num, M3Den, M4, M5, M5U, M5After, M6, M6After,      \* calibrated thresholds (centi-dB; M3 as a ratio of energies), R3
           LevelFloorNeg,                  \* level clauses only above this level (negated centi-dB), R2
           MinFecFrames,                   \* M3 is judged per stream once that many frames were recovered
           CheckM3, CheckM4                \* clauses that calibration left in force
@@ -135,12 +135,14 @@ Level == LevelOf(w.lv5)
 Stationary == cf.sig <= 10
 
 \* R2 sub-domains of the two clauses that hold only there (calibration table in spec/cfg/LinkTrace.cfg):
-\* clean talk spurts separated by exact digital silence (family 11: harmonic, modulated, no additive noise, so the
+\* clean talk spurts separated by exact digital silence (family 11: harmonic, modulated; family 14: unvoiced, fricative-
+\* like noise bursts, partly after a voiced start; no noise between the spurts, so the
 \* decoder's comfort-noise floor is zero) concealed by the speech / hybrid layer.  (Family 12, the same without
 \* pauses, is measured but not asserted: its concealment settles only 3 dB below the level.)
 \* Only once the stream has contained a pause (acc.qpos: end of the first packet the loss-free decoder rendered as
 \* silence): before that the comfort-noise estimate still holds the level of the stream's first frames.
-CleanSpeechLayer == /\ cf.sig = 11 /\ D!PlcMode(w.d) \in {MODE_SILK, MODE_HYBRID}
+M5Of == IF cf.sig = 14 THEN M5U ELSE M5
+CleanSpeechLayer == /\ cf.sig \in {11, 14} /\ D!PlcMode(w.d) \in {MODE_SILK, MODE_HYBRID}
                     /\ acc.qpos > 0 /\ w.pos - w.run >= acc.qpos
 \* strong in-band FEC: speech-only wideband mono stream, FEC on with >= 20 % announced loss, >= 32 kb/s,
 \* speech-like signal; an isolated loss (the packets before it arrived) recovered by a one-packet FEC call
@@ -184,7 +186,7 @@ RxWhy(e) ==
        THEN <<"concealment does not decay under sustained loss", e.lv, Level, w.run>>
   ELSE IF conceals /\ Stationary /\ Level >= LevelFloor /\ w.run >= M2LateAfter /\ D!PlcMode(w.d) = MODE_CELT /\ e.lv > Level - M2Late /\ e.lv > LevelFloor - M2Late
        THEN <<"concealment does not decay under sustained loss (late)", e.lv, Level, w.run>>
-  ELSE IF conceals /\ Level >= LevelFloor /\ w.run >= M5After /\ CleanSpeechLayer /\ e.lv > Level - M5 /\ e.lv > LevelFloor - M5
+  ELSE IF conceals /\ Level >= LevelFloor /\ w.run >= M5After /\ CleanSpeechLayer /\ e.lv > Level - M5Of /\ e.lv > LevelFloor - M5Of
        THEN <<"speech-layer concealment of a clean signal does not decay under sustained loss", e.lv, Level, w.run>>
   ELSE <<>>
 
